@@ -1,12 +1,18 @@
 """C04 - formatting and comments outside the edited element are preserved byte for byte.
 
-(M) spec/TokenMC.tla: a line-level reference editor (delete / replace / insert of a statement under every trivia mode)
-    on all small layouts of comments and blank lines must satisfy every clause of spec/TokenLaws.tla, and every
-    single-fault damage of its result (lost / duplicated / moved comment, changed or reordered foreign line, lost blank
-    line) must be rejected by the clause that the property names for it.
-(V) random edit histories of the shared edit driver on large, comment-heavy layouts of the corpus; per successful edit
-    the recorder harness/c04_tokens.py attaches tokenize / ast facts of the pre and post source, and TLC evaluates
-    spec/TokenTrace.tla (clauses of TokenLaws) on every event.
+(M) spec/TokenMC.tla: the line-level reference editor of spec/TokenRef.tla (delete / replace / insert of a statement
+    under every leading x trailing trivia mode, written from the documentation) on all small layouts of comments and
+    blank lines must satisfy every clause of spec/TokenLaws.tla (written on token indices), and every single-fault
+    damage of its result (lost / duplicated / moved comment, changed or reordered foreign line, lost blank line) must be
+    rejected by the clause that the property names for it.
+(G) spec/TokenGen.tla: TLC emits the case table of the reference editor (layout x request -> expected lines); the rows
+    are concretised as real source - the abstract list embedded as the body / orelse / finalbody / handler / case block
+    of 12 block contexts and as the elements of 5 bracketed expression sequences - the request is performed by the real
+    pfst, and TLC judges the result: all clauses of TokenLaws, and RefEdit.agree (exactly the documented lines are gone).
+(V) random edit histories of the shared edit driver (1/3 as it is, 2/3 with targets biased to statement lists and to
+    commented multi-line containers, harness/c04_history.py) on large, comment-heavy layouts of the corpus; per
+    successful edit the recorder harness/c04_tokens.py attaches tokenize / ast facts of the pre and post source, and TLC
+    evaluates spec/TokenTrace.tla (clauses of TokenLaws) on every event.
 """
 
 from __future__ import annotations
@@ -71,7 +77,7 @@ def history_specs(ctx, n_hist, n_steps):
 
 
 def generate(specs, nproc=14):
-    nshards = max(1, min(nproc, len(specs) // 8 or 1), len(specs) // 160)  # <= ~160 histories (~20 MB) per TLC run
+    nshards = max(1, min(12, len(specs) // 8 or 1), len(specs) // 160)  # <= ~160 histories (~20 MB) per TLC run
     shards = [(k, specs[k::nshards]) for k in range(nshards)]
     if nshards == 1:
         return [_shard(shards[0])]
@@ -92,11 +98,11 @@ def _retry(fn, tries=3):
             time.sleep(5 * (k + 1))
 
 
-def validate_all(ctx, results):
+def validate_all(ctx, results, par=6):
     def one(bs):
         b, s = bs
         return b, s, _retry(lambda: ctx.validate(b, module='TokenTrace', heap='3g'))
-    with cf.ThreadPoolExecutor(max_workers=min(6, len(results))) as ex:
+    with cf.ThreadPoolExecutor(max_workers=min(par, len(results))) as ex:
         return list(ex.map(one, results))
 
 
@@ -104,7 +110,7 @@ def _in_domain(ev):
     return ev.get('call') == 'edit' and ev['outcome'] == 'ok' and ev['law'] and ev['tk']['ok']
 
 
-def collect(ctx, validated):
+def collect(ctx, validated, samples=6):
     for batch, scripts, verd in validated:
         by_id = {t['id']: t for t in batch['traces']}
         for tid, v in verd.items():
@@ -120,7 +126,7 @@ def collect(ctx, validated):
                 ctx.violation(clause, klass, {
                     'driver': sc['driver'], 'variant': sc['variant'], 'hseed': sc['seed'], 'nsteps': sc['nsteps'],
                     'failing_step': step, 'event': {k: ev[k] for k in ev if k not in ('post', 'tk')},
-                    'plan': st['plan'], 'pre_src': st['pre_src'], 'post_src': st['post_src'],
+                    'plan': st['plan'], 'pre_src': st['pre_src'], 'post_src': st['post_src'], 'gen': sc.get('gen'),
                 }, detail=json.dumps({k: ev[k] for k in ('op', 'kind', 'field', 'codeform') if k in ev}))
         for tr in batch['traces']:
             for ev in tr['steps']:
@@ -134,7 +140,7 @@ def collect(ctx, validated):
                 ctx.distinct.add((ev['kind'], ev['field'], ev['form'], shape, tvc, tk['stmt'], bool(tk['newc'])))
         for tr in batch['traces'][:1]:
             for k, ev in enumerate(tr['steps']):
-                if _in_domain(ev):
+                if _in_domain(ev) and len(ctx.samples) < samples:
                     st = scripts[tr['id']]['script'][k]
                     pre, post = st['pre_src'].split('\n'), st['post_src'].split('\n')
                     import difflib
@@ -148,25 +154,31 @@ def collect(ctx, validated):
 
 def run(ctx):
     ctx.rule = ('M: TokenMC.tla - reference edits on all layouts within the constants satisfy every clause of '
-                'TokenLaws, every single-fault damage is rejected. V: random edit histories (all reachable list / '
-                'optional / single fields x index classes x entry points x trivia / pep8space / elif_ / docstr option '
-                'values) on 3 concatenated corpus programs in comment-heavy layouts (variants 1, 7, 4, 3); each '
-                'successful edit in the Sync domain judged by TLC (TokenTrace.tla) on tokenize / ast facts. '
-                'distinct = distinct (container kind, field, form, shape, trivia option, statement-level?, new code '
-                'has comments?) tuples judged')
+                'TokenLaws, every single-fault damage is rejected by the named clause. G: case table of the reference '
+                'editor emitted by TLC (TokenGen.tla), a seed-dependent sample replayed into pfst inside 12 block '
+                'contexts and 5 expression-sequence contexts, judged by TLC (clauses + RefEdit.agree). V: random edit '
+                'histories (all reachable list / optional / single fields x index classes x entry points x every '
+                'documented form of the trivia option incl. line numbers x pep8space / elif_ / docstr values) on 3 '
+                'concatenated corpus programs in comment-heavy layouts (shared variants 1, 7, 4, 3 + comment blocks '
+                'separated by blank lines, trailing comment lines, comments inside brackets); each successful edit in '
+                'the Sync domain judged by TLC (TokenTrace.tla) on tokenize / ast facts. distinct = distinct '
+                '(container kind, field, form, shape, trivia option form, statement-level?, new code has comments?) '
+                'tuples judged')
     ctx.assumptions += ['tokenize / ast.parse of the pre and post source are the only sources of extents (trusted)',
                         'domain: successful edits with a valid request inside the Sync domain (SyncDomain of EditLaws); '
                         'f-string internals and raw mode excluded',
                         'comments the trivia option selects may be removed or kept (the property only forbids losing '
                         'unselected ones); post-stream own-token flags come from ast.parse of the post source']
-    _retry(lambda: ctx.model('TokenMC', 'TokenMC' if ctx.quick else 'TokenMC_thorough',
-              required=('DoDelete', 'DoReplace', 'DoInsert', 'DropFarComment', 'DropNearComment', 'DupComment',
-                        'DropLineComment', 'ReindentFarLine', 'SwapFarStatements', 'DropFarBlank', 'DropNearBlank',
-                        'GlueComment'), heap='3g'))
+    actions = ('DoDelete', 'DoReplace', 'DoInsert', 'DropFarComment', 'DropNearComment', 'DupComment', 'DropLineComment',
+               'ReindentFarLine', 'SwapFarStatements', 'DropFarBlank', 'DropNearBlank', 'GlueComment')
+    # quick: 2 statements, trivia modes none / block / all x none / line / block / all; thorough: 3 statements with
+    # these modes, and 2 statements with the line-number forms of the option added
+    for cfg in (('TokenMC',) if ctx.quick else ('TokenMC_thorough', 'TokenMC_ints')):
+        _retry(lambda: ctx.model('TokenMC', cfg, required=actions, heap='3g'))
     n_hist, n_steps = (420, 8) if ctx.quick else (4200, 10)
     specs = history_specs(ctx, n_hist, n_steps)
     wave = 560  # histories generated and validated together (bounds memory in the thorough tier)
-    collect(ctx, validate_all(ctx, generated_cases(ctx)))
+    collect(ctx, validate_all(ctx, generated_cases(ctx), par=12), samples=2)  # (tiny streams: JVM start dominates)
     for k in range(0, len(specs), wave):
         collect(ctx, validate_all(ctx, generate(specs[k:k + wave])))
     ctx.extra['histories'] = n_hist
@@ -238,13 +250,14 @@ def run_step(rec, tt, tid: int, pre_src: str, pl: dict, extra=None):
     return {'id': tid, 'seed': 0, 'init': init, 'steps': [ev]}, script
 
 
-def single_step_batch(pre_src: str, pl: dict):
+def single_step_batch(pre_src: str, pl: dict, gen=None):
     """Re-execute one recorded request on a tree freshly built from the recorded pre source -> (batch, scripts)."""
     from harness import edits, c04_tokens
     rec = edits.Recorder()
     tt = c04_tokens.TokTables()
-    tr, script = run_step(rec, tt, 1, pre_src, pl)
-    scripts = {1: {'driver': 'c04_step', 'progs': [], 'variant': -1, 'seed': 0, 'nsteps': 1, 'script': [script]}}
+    tr, script = run_step(rec, tt, 1, pre_src, pl, extra=_gen_extra(tt, gen) if gen else None)
+    scripts = {1: {'driver': 'c04_step', 'progs': [], 'variant': -1, 'seed': 0, 'nsteps': 1, 'script': [script],
+                   'gen': gen}}
     return dict(rec.tab.dump(), **tt.dump(), traces=[tr]), scripts
 
 
@@ -277,6 +290,22 @@ CONTEXTS = [
 ]
 
 
+# the same abstract lists as the elements of bracketed expression sequences (one element per line): slice operations
+# take trivia by the same documented rules;  (header, indentation, path, field, footer)
+EXPR_CONTEXTS = [
+    (['x = [  # hc'], '    ', [['body', 0], ['value', None]], 'elts', [']  # fc']),
+    (['f(  # hc'], '    ', [['body', 0], ['value', None]], 'args', [')']),
+    (['x = (  # hc'], '    ', [['body', 0], ['value', None]], 'elts', [')']),
+    (['x = {  # hc'], '  ', [['body', 0], ['value', None]], 'elts', ['}']),
+    (['class C(  # hc'], '        ', [['body', 0]], 'bases', ['): pass']),
+]
+
+
+def _norm(t, expr):
+    t = t.strip()
+    return ' '.join(t.replace(',', ' ').split()) if expr else t
+
+
 def _gen_shard(args):
     shard_id, rows = args
     from harness import edits, c04_tokens
@@ -285,31 +314,73 @@ def _gen_shard(args):
     traces, scripts = [], {}
     for tid, row in rows:
         q = row['req']
-        head, ind, path, field, foot = CONTEXTS[row['ctx']]
+        expr = row['ctx'] >= len(CONTEXTS)
+        head, ind, path, field, foot = (EXPR_CONTEXTS[row['ctx'] - len(CONTEXTS)] if expr else CONTEXTS[row['ctx']])
+
+        def one(x):
+            t = _line_text(x)
+            if expr and x['k'] == 'stmt':  # `s1 = 1  # c` -> `e1,  # c`
+                code, _, com = t.partition('  #')
+                t = ('new' if x['id'] == 9 else f"e{x['id']}") + ',' + ('  #' + com if com else '')
+            return ind + t if t else ''
 
         def text(lines):
-            body = [ind + t if t else '' for t in map(_line_text, lines)]
-            return head + body + foot
+            return head + [one(x) for x in lines] + foot
 
         pre_src = '\n'.join(text(row['pre'])) + '\n'
-        kind = {'body': 'Module'}.get(field, '') if not path else ''
-        pl = {'path': path, 'kind': kind, 'field': field, 'start': None, 'stop': None, 'idx': None, 'et': 'stmt',
-              'srcs': [], 'codeform': 'src', 'corrupt': None, 'view': None,
-              'opts': {'trivia': (q['lm'], q['tm'])}}
-        if q['op'] == 'delete':
+        # line-number forms of the option: relative to the line of the targeted statement in the concrete text
+        p0 = len(head) + next((k for k, x in enumerate(row['pre']) if x['k'] == 'stmt' and x['id'] == q['i']), 0)
+        lead = p0 - int(q['lm'][2:]) if q['lm'].startswith('up') else q['lm']
+        trail = p0 + int(q['tm'][4:]) if q['tm'].startswith('down') else q['tm']
+        pl = {'path': path, 'kind': '', 'field': field, 'start': None, 'stop': None, 'idx': None,
+              'et': 'expr' if expr else 'stmt', 'srcs': [], 'codeform': 'src', 'corrupt': None, 'view': None,
+              'opts': {'trivia': (lead, trail)}}
+        new = 'new' if expr else 'new = 0'
+        if q['op'] == 'insert':
+            # (expression sequences: without trivia, see known finding F-C04-expr-insert-overwrites-neighbour-trivia)
+            pl.update(form='slice', start=q['i'] - 1, stop=q['i'] - 1, srcs=[new], op='put_slice' if expr else 'insert',
+                      opts={'trivia': (False, False)} if expr else {})
+        elif expr:
+            pl.update(form='slice', start=q['i'] - 1, stop=q['i'], srcs=[new] if q['op'] == 'replace' else [],
+                      op='put_slice')
+        elif q['op'] == 'delete':
             pl.update(form='del', idx=q['i'] - 1, op='remove')
-        elif q['op'] == 'replace':
-            pl.update(form='one', idx=q['i'] - 1, srcs=['new = 0'], op='replace')
         else:
-            pl.update(form='slice', start=q['i'] - 1, stop=q['i'] - 1, srcs=['new = 0'], op='insert', opts={})
-        # lines are compared without their indentation: where pfst leaves an unselected line comment of a removed
-        # statement (column 0 or block indentation) is not the reference editor's business
-        g = {'op': q['op'], 'expect': [tt.line(t.strip()) for t in text(row['expect'])], 'newline': tt.line('new = 0')}
+            pl.update(form='one', idx=q['i'] - 1, srcs=[new], op='replace')
+        # lines are compared without their indentation (where pfst leaves an unselected line comment of a removed
+        # statement - column 0 or block indentation - is not the reference editor's business); in expression
+        # sequences also without separators, and for an insertion there only the comment lines (the new element may
+        # share the line of its neighbour)
+        only_comments = expr and q['op'] == 'insert'
+
+        def lines_of(texts):
+            ts = [_norm(t, expr) for t in texts]
+            return [tt.line(t) for t in ts if not only_comments or t.startswith('#') or not t]
+
+        exp = list(row['expect'])
+        if expr and q['op'] == 'replace':
+            # an unselected line comment of a replaced *expression* element stays on the line, behind the new element
+            for k in range(len(exp) - 1):
+                if exp[k]['k'] == 'stmt' and exp[k]['id'] == 9 and exp[k + 1]['k'] == 'cmt' and exp[k + 1]['id'] >= 100:
+                    exp[k:k + 2] = [dict(exp[k], tr=exp[k + 1]['id'])]
+                    break
+        g = {'op': q['op'], 'expect': lines_of(text(exp)), 'newline': tt.line(_norm(new if expr else 'new = 0', expr))}
         tr, script = run_step(rec, tt, tid, pre_src, pl,
-                              extra=lambda post_src: {'g': dict(g, got=[tt.line(t.strip()) for t in post_src.split('\n')])})
-        scripts[tid] = {'driver': 'c04_gen', 'progs': [], 'variant': -2, 'seed': 0, 'nsteps': 1, 'script': [script]}
+                              extra=lambda post_src: {'g': dict(g, got=lines_of(post_src.split('\n')))})
+        scripts[tid] = {'driver': 'c04_gen', 'progs': [], 'variant': -2, 'seed': 0, 'nsteps': 1, 'script': [script],
+                        'gen': {'op': q['op'], 'expr': expr, 'only_comments': only_comments,
+                                'expect': [_norm(t, expr) for t in text(exp)], 'new': _norm(new, expr)}}
         traces.append(tr)
     return dict(rec.tab.dump(), **tt.dump(), traces=traces), scripts
+
+
+def _gen_extra(tt, gen):
+    """The `g` record of a generated case from its stored description (replays)."""
+    def lines_of(texts):
+        ts = [_norm(t, gen['expr']) for t in texts]
+        return [tt.line(t) for t in ts if not gen['only_comments'] or t.startswith('#') or not t]
+    g = {'op': gen['op'], 'expect': lines_of(gen['expect']), 'newline': tt.line(gen['new'])}
+    return lambda post_src: {'g': dict(g, got=lines_of(post_src.split('\n')))}
 
 
 def generated_cases(ctx, nproc=14):
@@ -330,10 +401,10 @@ def generated_cases(ctx, nproc=14):
     rng = random.Random(ctx.seed + 77)  # seed-dependent sample of the table (quick: NStmt = 2, thorough: NStmt = 3)
     rows = rng.sample(rows, min(len(rows), 3000 if ctx.quick else 12000))
     for k, row in enumerate(rows):  # each sampled row is replayed inside one block context (all contexts in turn)
-        row['ctx'] = k % len(CONTEXTS)
+        row['ctx'] = k % (len(CONTEXTS) + len(EXPR_CONTEXTS))
     ctx.extra['generated_cases'] = len(rows)
     numbered = list(enumerate(rows, 1))
-    nshards = max(1, min(nproc, len(numbered) // 200 or 1), len(numbered) // 1500)
+    nshards = max(1, min(12, len(numbered) // 200 or 1), len(numbered) // 1500)
     shards = [(k, numbered[k::nshards]) for k in range(nshards)]
     with mp.get_context('fork').Pool(min(nproc, nshards)) as pool:
         return pool.map(_gen_shard, shards)
@@ -352,7 +423,7 @@ def replay(ctx, path):
     import difflib
     with open(path) as f:
         rp = json.load(f)
-    batch, scripts = single_step_batch(rp['pre_src'], rp['plan'])
+    batch, scripts = single_step_batch(rp['pre_src'], rp['plan'], rp.get('gen'))
     val = [(batch, scripts, ctx.validate(batch, module='TokenTrace'))]
     collect(ctx, val)
     for _, _, verd in val:
